@@ -100,6 +100,18 @@ func genEngine(c *Ctx) error {
 				do("createdb")
 				continue
 			}
+			if commits > 0 && r.Chance(1, 9) && !c.Flag("norestart") {
+				// clean restart on the same data directory
+				do("reopen")
+				p.restarted()
+				if len(p.img) == 0 {
+					do("createdb") // the application opens the (deleted or never written) database again
+				}
+				c.Count("reopen")
+				sig.WriteString(",reopen")
+				observe(c, cs, p, fmt.Sprintf("history %d step %d (restart)", h, i))
+				continue
+			}
 			if commits > 0 && r.Chance(1, 10) {
 				if r.Bool() {
 					do(fmt.Sprintf("stray %d", r.Range(1, 5)))
